@@ -372,7 +372,8 @@ func (a SmallInt) DivideOverflow(b SmallInt) (result SmallInt, ok bool) {
 		return 0, false
 	}
 	c := a / b
-	return c, (c < 0) == ((a < 0) != (b < 0))
+	// the only quotient that does not fit is MinSmallInt / -1
+	return c, !(a == MinSmallInt && b == -1)
 }
 
 // DivideVal another value and return an error
